@@ -1022,6 +1022,7 @@ func (r *vfC03Run) doStep(op vfh.Op) string {
 			bad = append(bad, s)
 		}
 	}
+	moved := false
 	if len(bad) > 0 && refused && op.Name() == "setpeer" && r.lg.objs[op.S("h")].al {
 		// a refused SetPeer of an allow-listed connection may have moved it to the standard scopes
 		o := r.lg.objs[op.S("h")]
@@ -1033,6 +1034,7 @@ func (r *vfC03Run) doStep(op vfh.Op) string {
 		}
 		if ok {
 			bad = nil
+			moved = true // charged exactly once in the other consistent set: what the statement asks of a refused re-parenting
 		} else {
 			*o = save
 		}
@@ -1051,7 +1053,7 @@ func (r *vfC03Run) doStep(op vfh.Op) string {
 		r.dead = true
 		return got
 	}
-	if refused {
+	if refused && !moved {
 		for _, s := range r.scopes() {
 			if b, ok := before[s]; ok && b != after[s] {
 				r.mismatch("allornothing:"+op.Name(), fmt.Sprintf("refused %s changed scope %s", vfC03OpStr(op), s), b, after[s])
